@@ -53,13 +53,14 @@ func lexicallyValid(n string) bool {
 }
 
 type caseT struct {
-	Op     string
-	Name   string
-	Depth  int
-	Format string
-	Level  string
-	Source string // install: file | dir
+	Op        string
+	Name      string
+	Depth     int
+	Format    string
+	Level     string
+	Source    string // install: file | dir
 	Overwrite bool
+	Absent    bool // uninstall: no directory of that name exists (the call must fail and change nothing)
 }
 
 var workerSrc string
@@ -117,10 +118,16 @@ func main() {
 	// directory must still be exactly <root>/<name>, so sentinels wait where the TRIMMED name would resolve to
 	wrapped := []string{".. ", " ..", "..\n", "\t..\t", " . ", ". ", " ", "\t", " good", "good ", "../evil ", " ../evil"}
 	valid := []string{"good", "bar.example.plugin", "-x", "a_b", "..."}
+	// names in the shape of an executable FILE name (notation-<x>): single components, or traversal names, exactly as
+	// their characters say - nothing may be derived from them by stripping the prefix
+	prefixed := []string{"notation-..", "notation-.", "notation-", "notation-good", "notation-other", "notation-notation-good", "notation-../evil", "notation-../../x", "notation-good/..", "notation-.. "}
 	var cases []caseT
 	for _, depth := range []int{1, 3, 6} {
-		for _, n := range append(append(append([]string{}, names...), valid...), wrapped...) {
+		for _, n := range append(append(append(append([]string{}, names...), valid...), wrapped...), prefixed...) {
 			cases = append(cases, caseT{Op: "get", Name: n, Depth: depth}, caseT{Op: "uninstall", Name: n, Depth: depth})
+		}
+		for _, n := range append(append(append([]string{}, valid...), wrapped...), prefixed...) {
+			cases = append(cases, caseT{Op: "uninstall", Name: n, Depth: depth, Absent: true})
 		}
 		for _, fn := range []string{"..", ".", "good2", "evil", ".. ", " ."} {
 			for _, ow := range []bool{false, true} {
@@ -236,7 +243,7 @@ func main() {
 			}
 		case "uninstall":
 			victim := filepath.Join(root, c.Name)
-			if !strings.Contains(c.Name, "\x00") && inside(jail, victim) {
+			if !strings.Contains(c.Name, "\x00") && inside(jail, victim) && !c.Absent {
 				os.MkdirAll(J(victim), 0o755)
 				os.WriteFile(J(filepath.Join(victim, "victim.txt")), []byte("victim"), 0o644)
 			}
@@ -317,7 +324,7 @@ func main() {
 		}
 		key := ""
 		if !isValid && c.Op != "list" {
-			key = fmt.Sprintf("%s|%q|%d|%s|%s|%s", c.Op, c.Name, c.Depth, c.Format, c.Level, c.Source)
+			key = fmt.Sprintf("%s|%q|%d|%s|%s|%s|%v", c.Op, c.Name, c.Depth, c.Format, c.Level, c.Source, c.Absent)
 		}
 		r.Eval(key)
 		wit := map[string]any{"case": c, "name_quoted": fmt.Sprintf("%q", c.Name), "result": res, "fs_changes": diff, "plugin_root": root}
